@@ -597,7 +597,7 @@ class Check(object):
         if n >= 25:
             self.violations.append((what, None))
             return
-        d = os.path.join(VERIF, "replay", self.prop)
+        d = os.path.join(os.environ.get("VERIF_OUT_DIR", VERIF), "replay", self.prop)
         os.makedirs(d, exist_ok=True)
         path = os.path.join(d, "violation_%03d.json" % n)
         with open(path, "w") as f:
@@ -634,8 +634,11 @@ class Check(object):
         ev = {"property_id": self.prop, "tier": self.tier, "seed": seed(), "level": self.level,
               "coverage": cov, "assumptions": self.assumptions, "wall_s": round(wall, 2),
               "violations": len(self.violations)}
-        os.makedirs(os.path.join(VERIF, "evidence"), exist_ok=True)
-        with open(os.path.join(VERIF, "evidence", self.prop + ".json"), "w") as f:
+        # VERIF_OUT_DIR redirects evidence/ and replay/ (used when the checks are run against a scratch
+        # worktree holding a seeded defect, so that the committed evidence always comes from /repo itself)
+        evd = os.path.join(os.environ.get("VERIF_OUT_DIR", VERIF), "evidence")
+        os.makedirs(evd, exist_ok=True)
+        with open(os.path.join(evd, self.prop + ".json"), "w") as f:
             json.dump(ev, f, indent=1, default=_jd)
         for fid, (n, what) in sorted(self.known.items()):
             print("KNOWN-FINDING: property=%s %s [%s, reproduced %d times]" % (self.prop, what, fid, n))
